@@ -1,7 +1,9 @@
 """C26 — values extracted from models are values the expression actually takes."""
 from __future__ import annotations
 
+import json
 import math
+import os
 import random
 import struct
 import traceback
@@ -25,13 +27,13 @@ ASSUMPTIONS = ["a NaN returned for an FP expression is judged by isNaN only (SMT
 
 
 def floors(tier):
-    return {"queries_with_linking_extra_constraint": 100 if tier == "quick" else 1500, "values_judged": 1500 if tier == "quick" else 20000, "values:bv": 600, "values:fp": 300, "values:str": 150, "fp_special_values_seen": 6, "bv_wide_values": 100}
+    return {"queries_with_linking_extra_constraint": 100 if tier == "quick" else 800, "values_judged": 1500 if tier == "quick" else 12000, "values:bv": 600, "values:fp": 300, "values:str": 150, "fp_special_values_seen": 6, "bv_wide_values": 100}
 
 
 def plan(tier, seed):
     q = tier == "quick"
-    S = [{"kind": "bv", "stream": i, "n": 60 if q else 1200} for i in range(6 if q else 8)]
-    S += [{"kind": "fp", "stream": i, "n": 35 if q else 900} for i in range(6 if q else 8)]
+    S = [{"kind": "bv", "stream": i, "n": 60 if q else 400} for i in range(6 if q else 8)]
+    S += [{"kind": "fp", "stream": i, "n": 35 if q else 300} for i in range(6 if q else 8)]
     S += [{"kind": "str", "stream": i, "n": 60 if q else 600} for i in range(2 if q else 4)]
     S += [{"kind": "mixed", "stream": i, "n": 60 if q else 600} for i in range(2 if q else 4)]
     return S
@@ -157,6 +159,10 @@ def run_shard(spec, res):
     def run_queries(fam, cons_d, exprs_d, scls):
         s = scls()
         sname = type(s).__name__
+        if os.environ.get("VF_TRACE_CASES"):
+            # development aid: the case about to run, flushed (so that a native crash leaves its input behind)
+            with open(os.environ["VF_TRACE_CASES"], "a") as tf_:
+                tf_.write(json.dumps([fam, sname, cons_d, exprs_d], default=repr) + "\n")
         try:
             cons = [build(x) for x in cons_d]
             exprs = [build(x) for x in exprs_d]
@@ -231,7 +237,12 @@ def run_shard(spec, res):
             except claripy.errors.UnsatError:
                 res.violation({"kind": "model-value", "what": "UnsatError-on-satisfiable", "family": fam, "solver": sname, "constraints": cons_d, "expr": e_d})
             except (claripy.errors.ClaripyZ3Error, claripy.errors.ClaripySolverInterruptError):
+                # the backend ran into its time limit: this solver object is not asked anything else (what a solver does
+                # after a give-up is C17's subject; libz3 4.13 has been seen to crash on the next check of a solver whose
+                # floating-point search was cancelled)
                 res.count("solver_gave_up")
+                res.count("solver_dropped_after_give_up")
+                return
             except claripy.errors.ClaripyError as ex:
                 res.violation({"kind": "model-value", "what": "query-raised", "family": fam, "solver": sname, "constraints": cons_d, "expr": e_d, "observed": repr(ex)[:200], "tb": traceback.format_exc()[-1200:]})
         # values must come from *this* solver's models: branch, constrain one side, let the sibling solve, ask again
